@@ -46,7 +46,7 @@ def main():
         try:
             rc, out = sh(f"PYTHONPATH={wt} {PY} -m pytest -q -p no:cacheprovider -x 2>&1 | tail -3", wt)
             res["tests"] = out.strip().split("\n")[-1]
-            rc, out = sh(f"{PY} {os.path.join(d, 'demo.py')}", wt)
+            rc, out = sh(f"{PY} {os.path.join(d, 'demo.py')}", wt, env={"PYTHONPATH": wt})
             res["demo_with_patch_exit"] = rc
             res["checks"] = {}
             for pid in pids:
@@ -55,7 +55,7 @@ def main():
                 res["checks"][pid] = {"exit": rc, "lines": [l[:400] for l in lines]}
         finally:
             sh("git checkout -- . && git clean -fdq -e out -e PROPERTY.txt -e TASK.txt", wt)
-        rc, out = sh(f"{PY} {os.path.join(d, 'demo.py')}", wt)
+        rc, out = sh(f"{PY} {os.path.join(d, 'demo.py')}", wt, env={"PYTHONPATH": wt})
         res["demo_without_patch_exit"] = rc
         confirmed = "582 passed" in res.get("tests", "") and res["demo_with_patch_exit"] != 0 and res["demo_without_patch_exit"] == 0
         res["confirmed"] = confirmed
